@@ -299,7 +299,7 @@ def _run_case(case, scratch):
         want = {v.name: v.number for v in e.value}
         if r.get("error") or r.get("members") != want:
             viol.append({"clause": "enum-differs", "detail": {"enum": fq, "seen": r, "want": want}, "mech": {}})
-    return {"verdict": "violated" if viol else "held", "violations": viol[:20], "evaluations": len(msgs) + len(enums),
+    return {"verdict": "violated" if viol else "held", "violations": pipeline.diverse(viol, 40), "evaluations": len(msgs) + len(enums),
             "nontrivial_sigs": sorted(sigs), "counters": counters, "sample": sample or {},
             "programs": 1}
 
